@@ -76,11 +76,11 @@ Fixpoint repr (W : world) (v : value) {struct v} : pyexpr :=
   | VStd k args => ECall [lit "datetime"; std_name k] (map EInt (std_repr_args k args)) []
   | VEnum c m => EName (snd c ++ [m])                (* f"{__qualname__}.{name}" *)
   | VList l => EList (map (repr W) l)
-  | VTuple l => match l with [] => ETuple [] | _ => EList (map (repr W) l) end
+  | VTuple l => ETuple (map (repr W) l)               (* "()" or "(\n a,\n b,\n)" *)
   | VSet fz l =>
       match l with
       | [] => ECall [if fz then lit "frozenset" else lit "set"] [] []
-      | _ => EList (map (repr W) l)
+      | _ => if fz then ECall [lit "frozenset"] [ESet (map (repr W) l)] [] else ESet (map (repr W) l)
       end
   | VDict kv =>
       EDict ((fix go (l : list (value * value)) : list (pyexpr * pyexpr) :=
@@ -177,8 +177,8 @@ Fixpoint norm (W : world) (v : value) {struct v} : value :=
   match v with
   | VBytes _ b => VBytes BPlain b
   | VList l => VList (map (norm W) l)
-  | VTuple l => match l with [] => VTuple [] | _ => VList (map (norm W) l) end
-  | VSet fz l => match l with [] => VSet fz [] | _ => VList (map (norm W) l) end
+  | VTuple l => VTuple (map (norm W) l)
+  | VSet fz l => VSet fz (map (norm W) l)
   | VDict kv =>
       VDict ((fix go (l : list (value * value)) : list (value * value) :=
                 match l with [] => [] | (k, x) :: r => (norm W k, norm W x) :: go r end) kv)
@@ -228,6 +228,7 @@ Definition wf_local (W : world) (v : value) : bool :=
   | VEnum c m => enum_has W c m && match lib_kind c with None => true | Some _ => false end
                  && match snd c with [] => false | _ => true end && nospace (fst c)
   | VDict kv => forallb scalar_key (map fst kv) && keys_distinct (map fst kv)
+  | VSet _ l => forallb scalar_key l && keys_distinct l
   | VObj c fs =>
       match find_data W c with
       | Some fds =>
@@ -244,9 +245,7 @@ Definition wf_local (W : world) (v : value) : bool :=
 Definition wf (W : world) (v : value) : bool := forallb (wf_local W) (subs W v).
 
 (* ---------- guard: one clause per refutation ------------------------------- *)
-(* G1 tuple/set/frozenset with elements is written as a list *)
-Definition g_array_local (v : value) : bool :=
-  match v with VTuple (_ :: _) => false | VSet _ (_ :: _) => false | _ => true end.
+(* (G1, tuple/set/frozenset with elements written as a list: repaired in /repo a2ce0be, clause deleted) *)
 (* (G2, members of inner Enums written Inner.MEMBER: repaired in /repo fc8f170, clause deleted) *)
 (* (G4, QName text pasted unescaped: repaired in /repo 06e145c, clause deleted.
    XmlDuration/XmlPeriod still paste their data unescaped, but both constructors strip and
@@ -280,13 +279,12 @@ Definition pair_compatible (a b : import_line) : bool :=
 Definition g_names (ps : list import_line) : bool :=
   forallb (fun a => negb (is_builtin (snd a)) && forallb (pair_compatible a) ps) ps.
 
-Definition g_array (W : world) (v : value) : bool := forallb g_array_local (subs W v).
 Definition g_init (W : world) (v : value) : bool := forallb (g_init_local W) (subs W v).
 Definition g_imports (W : world) (v : value) : bool := g_names (map import_pair (types W v)).
 Definition g_std (W : world) (v : value) : bool := forallb g_std_local (subs W v).
 
 Definition guard (W : world) (v : value) : bool :=
-  g_array W v && g_imports W v && g_init W v && g_std W v.
+  g_imports W v && g_init W v && g_std W v.
 
 (* ---------- model of "render, exec in a fresh namespace, compare" ---------- *)
 Definition exec_back (W : world) (v : value) : option value :=
